@@ -4,6 +4,9 @@
 
    Events:  [e |-> "ver", v]        the firmware reported protocol version v (fed through
                                     PlatformService._platform_callback)
+            [e |-> "plat", ch, d]   another packet on the PLATFORM port (channel ch, data bytes d) delivered to the
+                                    registered port callbacks; it negotiates a version only if it is a
+                                    well-formed protocol-version answer (channel 1, first byte 0, two bytes)
             [e |-> "xmode", v]      Commander.set_client_xmode(v)
             [e |-> "call", cmd, args, out, pks, nq]   one API call; pks = what the link serialised of this
                                     call's packet objects before the call returned, nq = how many of its
@@ -28,7 +31,7 @@ Traces == JsonDeserialize(IOEnv.TRACE_FILE)
 VARIABLES tid, l,
           mver, mxmode, mpend, bad, badAt, badField,     \* monitor
           conf, confAt,                           \* conformance verdict
-          ver, xmode, link, building, pend, heap, last     \* design-spec variables
+          ver, nver, xmode, link, building, pend, heap, last     \* design-spec variables
 
 T == Traces[tid]
 Versions == -1..255
@@ -36,6 +39,7 @@ Cmds == {}             \* unused by the actions
 ArgSets == <<>>        \* unused by the actions
 HdrPorts == 0..15
 HdrChans == 0..3
+PlatPackets == {}      \* unused by the actions
 Links == {"now", "later"}
 Cap == 1
 Chained == TRUE
@@ -44,7 +48,7 @@ Bug == "none"
 D == INSTANCE Commands
 P == INSTANCE CommandsProps
 
-specvars == <<ver, xmode, link, building, pend, heap, last>>
+specvars == <<ver, nver, xmode, link, building, pend, heap, last>>
 Ev == T.ev[l]
 
 Init == /\ tid \in 1..Len(Traces)
@@ -53,7 +57,7 @@ Init == /\ tid \in 1..Len(Traces)
         /\ mpend = <<>>
         /\ bad = "ok" /\ badAt = 0 /\ badField = 0
         /\ conf = TRUE /\ confAt = 0
-        /\ ver = Traces[tid].ver0 /\ xmode = Traces[tid].xmode0 /\ last = D!None
+        /\ ver = Traces[tid].ver0 /\ nver = Traces[tid].ver0 /\ xmode = Traces[tid].xmode0 /\ last = D!None
         /\ link = "now" /\ building = D!NoCall /\ pend = <<>> /\ heap = [i \in 1..(Cap + 2) |-> D!NoPk]
 
 Conform(A) == IF conf /\ ENABLED A
@@ -68,6 +72,11 @@ Fail(c, f) == FailAt(c, f, l)
 MVer == /\ Ev.e = "ver"
         /\ mver' = Ev.v /\ UNCHANGED <<mxmode, mpend, bad, badAt, badField>>
         /\ Conform(D!SetVersion(Ev.v))
+
+MPlat == /\ Ev.e = "plat"
+         /\ mver' = (IF Ev.ch = 1 /\ Len(Ev.d) >= 2 /\ Ev.d[1] = 0 THEN Ev.d[2] ELSE mver)
+         /\ UNCHANGED <<mxmode, mpend, bad, badAt, badField>>
+         /\ Conform(D!PlatformPacket(Ev.ch, Ev.d))
 
 MXMode == /\ Ev.e = "xmode"
           /\ mxmode' = Ev.v /\ UNCHANGED <<mver, mpend, bad, badAt, badField>>
@@ -110,7 +119,7 @@ MHdr == /\ Ev.e = "hdr"
 
 Step == /\ l <= Len(T.ev)
         /\ l' = l + 1 /\ UNCHANGED tid
-        /\ (MVer \/ MXMode \/ MLink \/ MCall \/ MSer \/ MHdr)
+        /\ (MVer \/ MPlat \/ MXMode \/ MLink \/ MCall \/ MSer \/ MHdr)
 
 Finish == /\ l = Len(T.ev) + 1
           /\ l' = l + 1
